@@ -58,6 +58,7 @@ def random_script(rng, i, nops):
         delegates = [0] if stored and rng.random() < 0.7 else [rng.randint(1, nnodes)]
         repos.append({"stored": stored, "seeded": stored or rng.random() < 0.3, "private": private,
                       "allow": allow, "delegates": delegates})
+    persistent = sorted(rng.sample(range(1, npeers + 1), rng.randint(0, 1))) if rng.random() < 0.3 else []
     ops = []
     clock = 0
     conn = set()
@@ -66,6 +67,8 @@ def random_script(rng, i, nops):
     last_ts = {}
     for _ in range(nops):
         x = rng.random()
+        if persistent and rng.random() < 0.05:
+            ops.append(["attempted", persistent[0]])
         if x < 0.12 or not conn:
             p = rng.randint(1, npeers)
             ops.append(["connect", p])
@@ -160,7 +163,7 @@ def random_script(rng, i, nops):
             p = rng.randint(1, npeers)
             ops.append(rng.choice([["ping", p, rng.choice([0, 1, 8192, 65535]), rng.choice([0, 10])],
                                    ["pong", p, rng.choice([0, 1, 8192])], ["info", p], ["ann_inv"]]))
-    return {"run": f"r{i}", "peers": npeers, "nodes": nnodes, "repos": repos, "ops": ops}
+    return {"run": f"r{i}", "peers": npeers, "nodes": nnodes, "repos": repos, "persistent": persistent, "ops": ops}
 
 
 # scripted regression scenarios (the confirmed findings of DESIGN.md section 7)
